@@ -59,14 +59,15 @@ func newGraphBranch[T any](r *runnablePacker[T, []string, any], endNodes map[str
 		invoke: func(ctx context.Context, input any) (output []string, err error) {
 			nInput, ok := input.(T)
 			if !ok {
-				panic(newUnexpectedInputTypeErr(generic.TypeOf[T](), reflect.TypeOf(input)))
+				// the condition runs on the run loop's goroutine: a panic here would escape from Invoke/Stream
+				return nil, newUnexpectedInputTypeErr(generic.TypeOf[T](), reflect.TypeOf(input))
 			}
 			return r.Invoke(ctx, nInput)
 		},
 		collect: func(ctx context.Context, input streamReader) (output []string, err error) {
 			in, ok := unpackStreamReader[T](input)
 			if !ok {
-				panic(newUnexpectedInputTypeErr(generic.TypeOf[T](), input.getType()))
+				return nil, newUnexpectedInputTypeErr(generic.TypeOf[T](), input.getType())
 			}
 			return r.Collect(ctx, in)
 		},
